@@ -153,6 +153,7 @@ func checkC02(c *Ctx) {
 	checkChunkOwnership(c, p, "C02-R10")
 	checkTimerDiscipline(c, p, "C02-R13")
 	c.asRule("C14-R3", "C02-R12", func() { c14Prefix(c, p, buildDB(c, p)) })
+	recogniserConflicts(c, p, buildDB(c, p), "C02-R12")
 	collect := collectLoopFn(p)
 	if collect == nil {
 		c.Undecided("C02-R3", "collect loop", "-", "no function calling three or more parsers found")
